@@ -25,9 +25,11 @@ namespace _tuple {
 		storage(const storage<UTypes...> &other)
 		: item(other.item), tail(other.tail) { }
 
-		template<typename... UTypes>
-		storage(storage<UTypes...> &&other)
-		: item(std::move(other.item)), tail(std::move(other.tail)) { }
+		// An element that is an lvalue reference still refers to somebody else's object:
+		// it is forwarded with its declared type (like std::tuple does), not moved from.
+		template<typename U, typename... UTypes>
+		storage(storage<U, UTypes...> &&other)
+		: item(std::forward<U>(other.item)), tail(std::move(other.tail)) { }
 
 		T item;
 		storage<Types...> tail;
